@@ -101,7 +101,7 @@ class C15(Check):
                     stats["crashes"] += 1
                     cls = simdrv.classify_crash(r)
                     key = {"clause": "crash_" + cls, "obs": obs}
-                    self.add_finding(key, "worker died (%s) in scenario %s: %s" % (cls, j["args"], r.get("stderr", "")[-300:]),
+                    self.add_finding(key, "worker died (%s) in scenario %s: %s" % (cls, j["args"], simdrv.crash_summary(r)),
                                      {"property": "C15", "flavour": j["flavour"], "args": j["args"]})
                     continue
                 x = r["res"]
